@@ -94,6 +94,11 @@ CHECKS = {
         note="Loop harness bounds: N=2 (quick) / N<=3 (thorough) particles, d=1, <=2 (quick) / <=4 (thorough) iterations, schedules fixed 1/2(/4), adaptive with min_step 1/2 (and max_n_steps, unbounded in thorough; paths reaching the unrolling bound are counted as cut); user functions, proposal, generator and MCMC kernels are stubs (uninterpreted functions / symbolic streams / fake kernel modules); SMCSampler.sample is a logging-stripped copy of the current source with beta_tolerance 1/4. Flow construction/training seeds (torch.manual_seed, JAX keys) and third-party kernels are outside; known finding C20-D10.",
         ref="6/C20",
     ),
+    "C15": dict(
+        text="Partial (precision and conversion plumbing). (1) Whole runs of the real MiniPCNSMC / EmceeSMC sample() loop on the symbolic namespace, whose arrays carry a dtype tag that follows the Array-API promotion rules, with dtype='float32' (string and dtype object) requested at construction while the proposal, the user's functions and the kernel hand back float64: on every feasible path every population the sampler records in its history, hands to a checkpoint callback, restores from a checkpoint (bytes and the live dictionary, in a fresh sampler) and returns (with and without final enlargement) carries the requested width in the object and in every array it holds. (2) The namespace-generic conversion code of BaseSamples / Samples / SMCSamples (from_samples with and without dtype override and across classes, to_namespace with and without dtype, to_standard_samples, a selection followed by a conversion) with the symbolic namespace as source and target and every cell a distinct symbolic variable: same value in every cell of every field, every optional field kept (per-sample fields, temperature, attached evidence), requested / inherited float width.",
+        note="What NumPy, PyTorch and JAX themselves do when an array crosses from one library to another (DLPack, device moves, the three libraries' dtype objects) for every ordered pair, the sampling call's output-namespace option and proposal outputs consumed in another namespace are NOT decided: they are concrete C-implemented conversions with nothing symbolic to quantify over; this check only decides the part of C15 that lives in aspire's own namespace-generic Python code. Loop-harness bounds as for C08 (N=2, d=1, <=2 iterations quick / <=3 thorough; schedules fixed2, adaptive_half (+fixed1 thorough)); API family N=3, d=2. Known findings C15-F2 (SMCSamples.to_namespace drops beta and evidence) and C15-F3 (conversion of a selection recomputes the evidence) are listed in known_findings.json.",
+        ref="6/C15, 12.6",
+    ),
     "C09": dict(
         text="For the real SMCSamples.resample: the probability vector handed to the generator is proportional to exp((b1-b0)(ll+lp-lq)) and sums to one, and with a symbolic index vector (one ite-select path covers all N^M index vectors) every output row equals its source row in x, log_likelihood, log_prior and log_q; new beta, requested size, parameters and dtype preserved; also on an object whose weights were inspected and whose fields were then re-assigned, and for a same-temperature call with an explicit size. The same clauses are posed on every resampling performed inside whole runs of the real SMCSampler.sample (one per tempering iteration and the final n_final_samples enlargement): the vector at the generator stub is proportional to the incremental weights of the recorded source population, the number drawn is the size requested, and the rows handed to the kernel are the drawn copies of the source rows.",
         note="Temperatures on the grid {0,1/4,1/2,3/4,1}; N<=3 (quick) / N<=4 (thorough), d=2; generator stub offers only the weighted draw (any other request is a refutation); reals for floats; whole runs within the loop-harness bounds (N=2, d=1, <=2 iterations quick / N<=3, <=4 iterations thorough).",
@@ -104,7 +109,6 @@ CHECKS = {
 NA = {
     "C01": "A statement about the probability distribution of Monte-Carlo output (expectations, calibrated bounds over replicates); no bounded SMT query expresses an expectation over the proposal, and replicate-based testing is sampling, which this study excludes. Its deterministic ingredients are decided under C02, C04, C05, C08, C09.",
     "C13": "Every round trip goes through h5py/torch/equinox conversions invisible to a solver, the varying inputs are a finite set of structural configurations, and CrossHair cannot exhaust the one pure-Python slice (probed twice: 'Not confirmed' after 600 s). Needs concrete I/O runs, a different technique.",
-    "C15": "A finite product of concrete C-implemented array libraries and dtypes; nothing symbolic to quantify over, and the symbolic namespace cannot stand in for torch/jax/NumPy dispatch. Deciding it is enumeration of concrete runs.",
 }
 
 PENDING = "check not built yet (build in progress; planned in DESIGN.md section 6)"
